@@ -193,8 +193,20 @@ impl Engine for Roundtrip {
         };
         classify_encoded(&bytes, &c.opts, &mut out);
         for kind in self.readers {
-            let rs = 1 + (crate::util::digest(c) as usize % 5000);
-            match guarded(|| codec::decode_with(std::io::Cursor::new(&bytes), *kind, rs)) {
+            let dg = crate::util::digest(c) as usize;
+            let rs = 1 + (dg % 5000);
+            // one case in four is read back from a source that hands its data out in pieces (as a
+            // BufReader over a file does at its buffer boundaries)
+            let segs: Vec<usize> = match (dg >> 16) % 8 {
+                0 => vec![1],
+                1 => vec![1 + (dg >> 20) % 97, 1 + (dg >> 28) % 13, 8192],
+                _ => vec![],
+            };
+            if !segs.is_empty() {
+                out.label("decoded-from-fragmenting-source");
+            }
+            let src = crate::iow::SegReader::new(bytes.clone()).with_segs(segs);
+            match guarded(|| codec::decode_with(src, *kind, rs)) {
                 Err(p) => out.fails.push(Fail::panic("decode-panic", &p)),
                 Ok(r) => compare_decoded(&pcm, *kind, r, &mut out),
             }
